@@ -301,8 +301,14 @@ enum Style {
     Anchored,
     /// `*aN` of the closest anchored scalar before it (plain if there is none)
     Alias,
+    /// `!!str ~`: a string by its tag, verbatim in the input
+    TaggedNull,
+    /// `!!binary aGVsbG8=`: the owned target receives the decoded text, which is not in the input
+    Binary,
+    /// `!!int 42`: not a string for the owned target - nor for the borrowed one
+    TaggedInt,
 }
-const VALUE_STYLES: [Style; 13] = [
+const VALUE_STYLES: [Style; 16] = [
     Style::Plain,
     Style::Single,
     Style::SingleQQ,
@@ -316,6 +322,9 @@ const VALUE_STYLES: [Style; 13] = [
     Style::Tagged,
     Style::Anchored,
     Style::Alias,
+    Style::TaggedNull,
+    Style::Binary,
+    Style::TaggedInt,
 ];
 
 #[derive(Clone, Copy, Debug, PartialEq, Eq)]
@@ -425,6 +434,9 @@ impl BDoc {
             Style::PlainMulti => (format!("{}{nl}{cont}{}", words[0], words[1..].join(" ")), v, Transformed),
             Style::DoubleMulti => (format!("\"{}{nl}{cont}{}\"", words[0], words[1..].join(" ")), v, Transformed),
             Style::Tagged => (format!("!!str {v}"), v, Verbatim),
+            Style::TaggedNull => ("!!str ~".to_string(), "~".to_string(), Verbatim),
+            Style::Binary => ("!!binary aGVsbG8=".to_string(), "hello".to_string(), Transformed),
+            Style::TaggedInt => ("!!int 42".to_string(), "42".to_string(), Verbatim),
             Style::Anchored => {
                 anchors.push((idx, v.clone()));
                 (format!("&a{idx} {v}"), v, Verbatim)
@@ -684,7 +696,20 @@ fn check_borrow(d: &BDoc) -> Outcome {
     let owned = match engine::catch(|| owned_run(d.shape, text)) {
         Caught::Ok(Ok(v)) => v,
         Caught::Ok(Err(e)) => {
-            return Outcome::Discard(if format!("{e}").is_empty() { "selfcheck: generated document rejected" } else { "selfcheck: generated document rejected" });
+            // "succeeds exactly when ... and then yields the same text as the owned variant":
+            // what the owned target rejects (a scalar tagged `!!int`, say) the borrowed one
+            // rejects as well
+            let _ = e;
+            for via in MEM_EPS {
+                match engine::catch(|| borrowed_run(d.shape, text, via)) {
+                    Caught::Ok(Ok((vals, _))) => {
+                        return Outcome::Fail(format!("{via:?}: &str target accepts a document that the String target rejects: {vals:?} from {text:?}"));
+                    }
+                    Caught::Ok(Err(_)) => {}
+                    Caught::Panic(m, l) => return Outcome::Fail(format!("panic at {l}: {m}")),
+                }
+            }
+            return Outcome::Discard("owned and borrowed targets both reject the document");
         }
         Caught::Panic(m, l) => return Outcome::Fail(format!("panic at {l}: {m}")),
     };
